@@ -16,7 +16,7 @@ import sys
 
 import numpy as np
 
-from common import SPEC, Check, MachineryError, tlc, validate_traces, exact_int
+from common import SPEC, Check, ContractSet, MachineryError, tlc, validate_traces, exact_int
 
 ALGO = SPEC / "algo" / "MCContinuation.tla"
 TRACE = SPEC / "trace" / "ContinuationTrace.tla"
@@ -169,6 +169,76 @@ def gen_behaviours(ck: Check, cfgfile: str, *, simulate=None, seed=None, timeout
     return r, r.printed()
 
 
+def family_part(ck: Check):
+    """End-to-end families through the real interface (aux-period alignment, instantiation, predictor, counters)."""
+    import math
+    from hiten import System
+    from hiten.algorithms.continuation.options import OrbitContinuationOptions
+    from hiten.algorithms.dynamics.base import _propagate_dynsys
+    from hiten.algorithms.types.states import SynodicState
+    cs = ContractSet(ck, "family_contracts")
+    system = System.from_bodies("earth", "moon")
+    L = system.get_libration_point(1)
+    seeds = [("halo", dict(amplitude_z=0.2, zenith="southern"), SynodicState.Z, 0.005)]
+    if not ck.quick:
+        seeds.append(("lyapunov", dict(amplitude_x=4e-3), SynodicState.X, 2e-4))
+    for fam, kw, comp, step in seeds:
+        for stepper in ("natural", "secant"):
+            for scenario in ("leave-target", "member-limit", "forced-rejections"):
+                seed = L.create_orbit(fam, **kw)
+                seed.correct()
+                cfg = seed.continuation_config
+                seed.continuation_config = cfg.merge(stepper=stepper) if hasattr(cfg, "merge") else cfg
+                p0 = float(seed.initial_state[comp])
+                mm = 5
+                if scenario == "leave-target":
+                    tgt, st = ([p0 - 1e-9], [p0 + 2.5 * step]), step
+                elif scenario == "member-limit":
+                    tgt, st, mm = ([p0 - 1.0], [p0 + 1.0]), step, 3
+                else:
+                    tgt, st = ([p0 - 1.0], [p0 + 1.0]), 64 * step
+                label = f"{fam}|{stepper}|{scenario}"
+                ck.count(("family", label), True)
+                opts = OrbitContinuationOptions(target=tgt, step=(st,), max_members=mm, max_retries_per_step=8, step_min=1e-10,
+                                                step_max=1.0, shrink_policy=None, extra_params=seed.correction_options)
+                try:
+                    res = seed.generate(opts)
+                except Exception as ex:
+                    ck.violation(f"orbit.generate|raises:{type(ex).__name__}", f"{label}: {ex!r}"[:300], {"case": label})
+                    continue
+                t = cs.trace(label, {"member_bound": -100, "only_last_outside_target": -100, "counts_consistent": -100,
+                                     "parameter_alignment": -120, "closure_with_own_period": -60, "offset_is_current_step": -90},
+                             {"family": fam, "stepper": stepper, "scenario": scenario})
+                famv = list(res.family)
+                params = [float(np.asarray(p).ravel()[0]) for p in res.parameter_values]
+                cs.obs(t, "member_bound", 0.0 if len(famv) <= mm else 1.0)
+                inside = [tgt[0][0] <= p <= tgt[1][0] for p in params]
+                cs.obs(t, "only_last_outside_target", 0.0 if all(inside[:-1]) else 1.0)
+                ok = (res.accepted_count == len(famv) == len(params) and res.iterations == res.accepted_count - 1 + res.rejected_count
+                      and (scenario != "forced-rejections" or res.rejected_count >= 1)
+                      and (scenario != "leave-target" or not inside[-1]) and (scenario != "member-limit" or len(famv) == mm))
+                cs.obs(t, "counts_consistent", 0.0 if ok else 1.0)
+                cs.obs(t, "parameter_alignment", max(abs(float(o.initial_state[comp]) - p) for o, p in zip(famv, params)))
+                worst = 0.0
+                for o in famv:
+                    x0 = np.asarray(o.initial_state, dtype=float)
+                    sol = _propagate_dynsys(system.dynsys, x0, 0.0, float(o.period), forward=1, steps=2, method="adaptive", order=8,
+                                            rtol=1e-13, atol=1e-13)
+                    worst = max(worst, float(np.linalg.norm(np.asarray(sol.states[-1]) - x0)))
+                cs.obs(t, "closure_with_own_period", worst)
+                # natural stepping in a coordinate the corrector holds fixed: consecutive parameters differ by step / 2^k
+                off = 0.0
+                if stepper == "natural":
+                    for a, b in zip(params, params[1:]):
+                        off = max(off, min(abs((b - a) - st / 2 ** k) for k in range(0, 12)))
+                cs.obs(t, "offset_is_current_step", off)
+                if len(ck.cov["samples"]) < 8:
+                    ck.sample({"family_case": label, "parameters": params, "periods": [float(o.period) for o in famv],
+                               "accepted": res.accepted_count, "rejected": res.rejected_count, "iterations": res.iterations})
+    cs.decide(key_fn=lambda t, n: f"orbit.generate|{n}")
+    cs.selftest()
+
+
 def main(tier=None, replay=None):
     ck = Check("C13", "model_checking", tier)
     rnd = random.Random(ck.seed)
@@ -286,12 +356,13 @@ def main(tier=None, replay=None):
             raise MachineryError("binding self-test: corrupted traces were accepted by ContinuationTrace")
         ck.part("selftest", corrupted_traces_rejected=2)
 
+    family_part(ck)
     ck.cov["rule"] = ("behaviours = terminal states of the TLC model (config x corrector outcome script), exhaustive "
                       "for the generation config plus -simulate samples seeded by VERIF_SEED; distinct = distinct "
                       "(config, script); non-trivial = script of >= 2 corrector calls")
     ck.cov["exhaustive"] = True
     ck.assumptions += ["corrector, predictor and parameter getter are scripted collaborators (1-D integer lattice)",
-                      "member periodicity (closure with its own period) is checked under C05's contract, not here"]
+                      "end-to-end families (real interface): closure of every member with its own period under adaptive DOP853, bound 1e-6"]
     return ck.finish()
 
 
